@@ -39,34 +39,70 @@ class _Return(Exception):
 
 
 class Sym:
-    """coefficient times a product of opaque atoms"""
+    """polynomial in opaque atoms: {sorted tuple of atoms: coefficient}; Sym(c, atoms) is a monomial"""
 
-    def __init__(self, coef=1.0, atoms=()):
-        self.coef = float(coef)
-        self.atoms = tuple(sorted(atoms)) if self.coef != 0.0 else ()
+    def __init__(self, coef=1.0, atoms=(), terms=None):
+        if terms is not None:
+            self.terms = {k: v for k, v in terms.items() if v != 0.0}
+        else:
+            self.terms = {tuple(sorted(atoms)): float(coef)} if float(coef) != 0.0 else {}
+
+    @property
+    def coef(self):
+        if not self.terms:
+            return 0.0
+        if len(self.terms) == 1:
+            return next(iter(self.terms.values()))
+        raise Unsupported("coefficient of a sum")
+
+    @property
+    def atoms(self):
+        if not self.terms:
+            return ()
+        if len(self.terms) == 1:
+            return next(iter(self.terms.keys()))
+        raise Unsupported("atoms of a sum")
 
     def __mul__(self, o):
-        if isinstance(o, Sym):
-            return Sym(self.coef * o.coef, self.atoms + o.atoms)
         if isinstance(o, (int, float)):
-            return Sym(self.coef * o, self.atoms)
+            return Sym(terms={k: v * o for k, v in self.terms.items()})
+        if isinstance(o, Sym):
+            out = {}
+            for k1, v1 in self.terms.items():
+                for k2, v2 in o.terms.items():
+                    k = tuple(sorted(k1 + k2))
+                    out[k] = out.get(k, 0.0) + v1 * v2
+            return Sym(terms=out)
         return NotImplemented
     __rmul__ = __mul__
 
+    def __add__(self, o):
+        o = as_sym(o)
+        out = dict(self.terms)
+        for k, v in o.terms.items():
+            out[k] = out.get(k, 0.0) + v
+        return Sym(terms=out)
+    __radd__ = __add__
+
+    def __sub__(self, o):
+        return self + (as_sym(o) * -1.0)
+
+    def __rsub__(self, o):
+        return as_sym(o) - self
+
     def __neg__(self):
-        return Sym(-self.coef, self.atoms)
+        return self * -1.0
 
     def same(self, o):
-        if isinstance(o, (int, float)):
-            o = Sym(o)
-        if self.coef == 0.0 and o.coef == 0.0:
-            return True
-        return self.atoms == o.atoms and math.isclose(self.coef, o.coef, rel_tol=1e-12, abs_tol=1e-14)
+        o = as_sym(o)
+        keys = set(self.terms) | set(o.terms)
+        return all(math.isclose(self.terms.get(k, 0.0), o.terms.get(k, 0.0), rel_tol=1e-12, abs_tol=1e-13)
+                   for k in keys)
 
     def __repr__(self):
-        if self.coef == 0.0:
+        if not self.terms:
             return "0"
-        return "%.6g*%s" % (self.coef, "*".join(self.atoms) or "1")
+        return " + ".join("%.6g*%s" % (v, "*".join(k) or "1") for k, v in sorted(self.terms.items()))
 
 
 def as_sym(v):
@@ -218,7 +254,11 @@ class Evaluator:
         if isinstance(a, Sym) or isinstance(b, Sym):
             if isinstance(op, ast.Div) and not isinstance(b, Sym):
                 return as_sym(a) * (1.0 / b)
-            raise Unsupported("arithmetic other than products on opaque quantities")
+            if isinstance(op, ast.Add):
+                return as_sym(a) + as_sym(b)
+            if isinstance(op, ast.Sub):
+                return as_sym(a) - as_sym(b)
+            raise Unsupported("arithmetic other than sums and products on opaque quantities")
         if isinstance(op, ast.Add):
             return a + b
         if isinstance(op, ast.Sub):
@@ -310,6 +350,11 @@ class Evaluator:
                 st = self.ev(e.slice.step, env) if e.slice.step else None
                 r = b[lo:hi:st]
                 return Vec(r) if isinstance(b, Vec) else r
+            if isinstance(b, SymArr) and isinstance(e.slice, ast.Tuple) and \
+                    any(isinstance(x, ast.Slice) for x in e.slice.elts):
+                if all(isinstance(x, ast.Slice) for x in e.slice.elts):
+                    return b          # a cut of an opaque array is the same opaque array (elements keep their index)
+                raise Unsupported("mixed slice of an opaque array")
             i = self.ev(e.slice, env)
             if isinstance(b, SymArr):
                 return b.at(i)
